@@ -75,6 +75,12 @@ func init() {
 				}
 			}
 			paths = append(paths, "/")
+			sizeOf := map[string]int{}
+			for _, o := range pop {
+				if o.K == "writefile" && o.D != nil {
+					sizeOf[o.P] = o.D.Len
+				}
+			}
 			var out []Op
 			h := 100
 			for _, o := range ro {
@@ -82,7 +88,10 @@ func init() {
 				if r.Float64() < 0.4 {
 					p := paths[r.IntN(len(paths))]
 					h++
-					switch r.IntN(6) {
+					switch r.IntN(7) {
+					case 6: // truncate to exactly the size the file has (a no-op on a writable file is still a mutating call here)
+						out = append(out, Op{K: "openfile", P: p, H: h, F: []int{os.O_RDONLY, os.O_RDWR, os.O_WRONLY}[r.IntN(3)], M: 0o644},
+							Op{K: "h.truncate", H: h, O: int64(sizeOf[p])}, Op{K: "h.truncate", H: h, O: int64(sizeOf[p]) + int64(r.IntN(3)) - 1}, Op{K: "h.close", H: h})
 					case 4: // consume part of the content, go back, read again, try to write, close or sync
 						out = append(out, Op{K: "open", P: p, H: h}, Op{K: "h.read", H: h, N: 1 + r.IntN(40)},
 							Op{K: "h.seek", H: h, O: int64(r.IntN(3)), W: 0}, Op{K: "h.read", H: h, N: 1 << 16})
